@@ -55,11 +55,12 @@ def header(kind: int, name: str, ind: int, n1: int, n2: int, deco: int, cont: in
     """
     pre: 0 <= kind <= 2
     pre: ok_name(name, 1, 3)
-    pre: 0 <= ind <= 1 and 1 <= n1 <= 3 and 0 <= n2 <= 2 and 0 <= deco <= 1 and 0 <= cont <= 1
+    pre: 0 <= ind <= 1 and 0 <= n1 <= 3 and 0 <= n2 <= 2 and 0 <= deco <= 1 and 0 <= cont <= 1
+    pre: n1 >= 1 or cont == 1
     post: _
     """
     PATHS[0] += 1
-    kind, ind, n1, n2, deco, cont = _c(kind, 0, 2), _c(ind, 0, 1), _c(n1, 1, 3), _c(n2, 0, 2), _c(deco, 0, 1), _c(cont, 0, 1)
+    kind, ind, n1, n2, deco, cont = _c(kind, 0, 2), _c(ind, 0, 1), _c(n1, 0, 3), _c(n2, 0, 2), _c(deco, 0, 1), _c(cont, 0, 1)
     indent = ' ' * (4 * ind)
     if kind == 0:
         kw = 'def'
@@ -210,7 +211,7 @@ def bindings_ok(text):
     p = Project(['/nonexistent-root'])
     src = Source(text, 'f.py')
     sc = extract_scope(src, p)
-    lines = text.splitlines()
+    lines = text.split('\n')
     decl = {}
     bad = []
     handler_lines = {n.lineno: n for n in ast.walk(src.tree) if isinstance(n, ast.ExceptHandler)}
@@ -245,6 +246,47 @@ def bindings_ok(text):
     return bad
 
 
+LIB = {'c11lib.py': 'x = 1\ndef      spaced(): pass\nclass         Wide: pass\nvalue_far_right_____________ = x; target = 2\n'}
+CROSS = ['import c11lib\nc11lib.spaced\nc11lib.Wide\nc11lib.target\n',
+         'from c11lib import spaced, Wide, target\nspaced\nWide\ntarget\n']
+
+
+def materialise(path):
+    import os
+    os.makedirs(path, exist_ok=True)
+    for rel, text in LIB.items():
+        with open(os.path.join(path, rel), 'w') as f:
+            f.write(text)
+
+
+def cross_file_ok(text):
+    """go-to-definition into another file reports the position that file's own analysis enumerates"""
+    import os
+    from supp.assistant import location
+    from supp.project import Project
+    root = os.environ.get('VERIF_C11_ROOT', '')
+    p = Project([root])
+    lib = p.get_module('c11lib')
+    decl = {}
+    for flow, n in lib.scope.all_names:
+        decl.setdefault(n.name, set()).add(tuple(n.declared_at))
+    bad = []
+    for n in ast.walk(ast.parse(text)):
+        ident = n.attr if isinstance(n, ast.Attribute) else n.id if isinstance(n, ast.Name) and isinstance(n.ctx, ast.Load) else None
+        if ident in ('spaced', 'Wide', 'target') and n.end_lineno == n.lineno:
+            locs = location(Project([root]), text, (n.end_lineno, n.end_col_offset), os.path.join(root, 'main.py'))
+            flat = []
+            for x in locs:
+                flat.extend(x if isinstance(x, list) else [x])
+            for x in flat:
+                if x['file'].endswith('c11lib.py') and tuple(x['loc']) not in decl.get(ident, set()):
+                    bad.append('go-to-definition of %s gives %r in c11lib.py, its own analysis enumerates %r'
+                               % (ident, x['loc'], sorted(decl.get(ident, ()))))
+            if not [x for x in flat if x['file'].endswith('c11lib.py')]:
+                bad.append('go-to-definition of %s does not reach c11lib.py' % ident)
+    return bad
+
+
 def programs():
     from vlib import family, tharness
     out = []
@@ -268,11 +310,13 @@ def programs():
         'def f(a, b=1, /, c=2, *, d, **e): return a, b, c, d, e\nlam = lambda q, *r: (q, r)\n',
         'def \\\n    continued(a):\n    return a\nclass \\\n  Cont: pass\nasync \\\n def \\\n  both(): pass\nprint(continued, Cont, both)\n',
         'import os as operating_system, sys as s\nfrom os import sep as separator_char, path as p\nprint(operating_system, s, separator_char, p)\n',
+        'def \\\nzero(): pass\nclass \\\nKlass: pass\nimport os as \\\nosmod\nfrom os import (path as\npth)\nprint(zero, Klass, osmod, pth)\n',
+        'class Aq\\\n  (object): pass\nimport os as oq# c\nx = 1\n\x0cdef after_ff(): pass\nprint(Aq, oq, after_ff)\n',
     ]
     return out
 
 
-PROGRAMS = programs()
+PROGRAMS = programs() + CROSS
 
 
 def all_bindings(case: int) -> bool:
@@ -286,6 +330,8 @@ def all_bindings(case: int) -> bool:
     with NoTracing():
         if TWIN[0]:
             return False
+        if PROGRAMS[c] in CROSS:
+            return not cross_file_ok(PROGRAMS[c])
         return not bindings_ok(PROGRAMS[c])
 
 
